@@ -6,9 +6,10 @@
    ACTIVE operation whose context lists the resource, every active operation has
    a context.  [current] = the code as it is at /repo HEAD.  The fault script
    [sc] (checkpoint verdicts; what each checkpoint callback does first: manual
-   kill of any operation - also of the executing one -, a watchdog pass,
-   shutdown, time passing; scripted work function incl. nested controller
-   calls, work raising, validation absent/true/false/raising), the request list
+   kill of any operation - also of the executing one -, a watchdog pass, a
+   maintenance pass (priority inheritance + watchdog), shutdown, time passing;
+   scripted work function incl. nested controller calls (also run_maintenance,
+   controller.advance of other operations, pop_next_waiter), work raising, validation absent/true/false/raising), the request list
    [reqs] (repeats, unregistered ids, resources held by others), priorities and
    the watchdog configuration [w] are universally quantified everywhere.
    The operation id [o] of execute_operation is any id that is not live: a
@@ -21,7 +22,8 @@ Import ListNotations.
 Open Scope Z_scope.
 
 (* the invariant holds initially and is preserved by every call of the API
-   (step API, kill, watchdog, shutdown, execute_operation with any script),
+   (step API incl. advance / pop_next_waiter, kill, watchdog, run_maintenance,
+   shutdown, execute_operation with any script),
    hence in every reachable state *)
 Theorem c14_invariant_preserved :
   forall w s a, WF s -> WF (fst (step current w s a)).
@@ -120,6 +122,35 @@ Theorem c14_watchdog_no_leak :
     WF s' /\ forall v why, In (v, why) evs -> (forall r, owner s' r <> Some v) /\ ~ In v (active s').
 Proof. exact watchdog_no_leak_proof. Qed.
 Print Assumptions c14_watchdog_no_leak.
+
+(* CoordinationSystem.run_maintenance (priority inheritance, then the watchdog):
+   PriorityInheritance.check_and_boost terminates (its chain walk never runs out
+   of fuel), touches no lock, ends nobody, leaves the wait-for graph alone and
+   raises the priority of ACTIVE operations only; every operation the watchdog
+   half then terminates owns nothing afterwards and is not active *)
+Theorem c14_boost_fuel_suffices : forall s, pi_boost s <> None.
+Proof. exact boost_fuel_proof. Qed.
+Print Assumptions c14_boost_fuel_suffices.
+
+Theorem c14_maintenance_no_leak :
+  forall w s s1 nb,
+    WF s -> pi_boost s = Some (s1, nb) ->
+    (forall r, get_lock s1 r = get_lock s r) /\ active s1 = active s /\ edges s1 = edges s /\
+    (forall o p, In (o, p) nb -> In o (active s)) /\
+    let s' := fst (wd_execute current w s1) in
+    let evs := snd (wd_execute current w s1) in
+    WF s' /\ forall v why, In (v, why) evs -> (forall r, owner s' r <> Some v) /\ ~ In v (active s').
+Proof. exact maintenance_no_leak_proof. Qed.
+Print Assumptions c14_maintenance_no_leak.
+
+(* ... and it changes only locks owned by the operations it terminates *)
+Theorem c14_maintenance_changes_only_victims_locks :
+  forall w s s1 nb,
+    WF s -> pi_boost s = Some (s1, nb) ->
+    forall r, (forall v why, In (v, why) (snd (wd_execute current w s1)) -> owner s r <> Some v) ->
+    get_lock (fst (wd_execute current w s1)) r = get_lock s r.
+Proof. exact maintenance_own_locks_proof. Qed.
+Print Assumptions c14_maintenance_changes_only_victims_locks.
 
 Theorem c14_shutdown_no_leak :
   forall s,
